@@ -35,6 +35,14 @@ def oracle(aug, impl):
     if any(o[0] not in ("M", "L", "Z") for o in fops):
         return "flattened path contains a curve op"
     # walk both op lists with the fill-side cursor
+    # number of points lyon returned for each curve, from the harness (ORACLE n (k pts)*)
+    counts = []
+    if "ORACLE" in t:
+        q = t.index("ORACLE")
+        n = int(t[q + 1]); q += 2
+        for _ in range(n):
+            k = int(t[q]); counts.append(k); q += 1 + 2 * k
+    ci = 0
     cur = start = None
     j = 0
     for o in ops:
@@ -64,10 +72,15 @@ def oracle(aug, impl):
             pts = [cur]
             # the run of LineTo's of this curve: up to and including the first one equal to the end point
             k = j
+            want = counts[ci] if ci < len(counts) else None
+            ci += 1
             while k < len(fops) and fops[k][0] == "L":
                 pts.append((fops[k][1], fops[k][2]))
                 k += 1
-                if pts[-1] == end:
+                if want is not None:
+                    if k - j == want:
+                        break
+                elif pts[-1] == end:
                     break
             if len(pts) < 2 or pts[-1] != end:
                 # a curve whose end equals its start may legitimately flatten to ... at least its end point
